@@ -494,6 +494,16 @@ func (e *Enc) selectInstr(fr *frame, st *State, x *ssa.Select) Value {
 		lo = "(- 1)"
 	}
 	st.assume(fmt.Sprintf("(and (<= %s %s) (< %s %d))", lo, idx, idx, n))
+	// sends are offered with the operands as evaluated before the select
+	// blocks: their clauses are checked in the state before other goroutines run
+	for _, s := range x.States {
+		if s.Dir == types.SendOnly {
+			ch := fr.val(st, s.Chan)
+			v := fr.val(st, s.Send)
+			// an attempt is recorded whether or not the message was enqueued
+			e.recordSend(fr, st, ch, v, "true", s.Pos)
+		}
+	}
 	if x.Blocking {
 		e.noteBlocking(fr, "select", x.Pos())
 		e.syncPoint(fr, st, "select")
@@ -502,9 +512,6 @@ func (e *Enc) selectInstr(fr *frame, st *State, x *ssa.Select) Value {
 	for i, s := range x.States {
 		ch := fr.val(st, s.Chan)
 		if s.Dir == types.SendOnly {
-			v := fr.val(st, s.Send)
-			// an attempt is recorded whether or not the message was enqueued
-			e.recordSend(fr, st, ch, v, "true", s.Pos)
 			_ = i
 		} else {
 			et := ch.typ.Underlying().(*types.Chan).Elem()
